@@ -64,14 +64,16 @@ Theorem C12_authorized_iff : forall (creds : Type) name (schemes : scheme_table 
 Proof. exact authorized_iff. Qed.
 Print Assumptions C12_authorized_iff.
 
-(* no answer depends on the requests served before it (e.g. on an earlier successful login) *)
+(* MECHANISM LEMMA, not coverage: a fact about [map] that fixes the case type of the request
+   histories the harness runs on one loaded scheme set (that is where the content is) *)
 Theorem C12_auth_history_independent :
   forall (creds : Type) name (schemes : scheme_table creds) pre c post d,
   nth (List.length pre) (auth_history name schemes (pre ++ c :: post)) d = authorized name schemes c.
 Proof. exact auth_history_independent. Qed.
 Print Assumptions C12_auth_history_independent.
 
-(* no access verdict depends on the requests / connections served before it on the same target *)
+(* MECHANISM LEMMAS, not coverage: facts about [map]; the histories on one long-lived target
+   are run by the harness (classes http/access-history, tcp/access-history) *)
 Theorem C12_access_history_independent :
   forall parse_ip split_host r pre remote xff post d,
   nth (List.length pre) (http_access_history parse_ip split_host r (pre ++ (remote, xff) :: post)) d
@@ -84,7 +86,9 @@ Theorem C12_access_history_independent_tcp : forall r pre p post d,
 Proof. exact tcp_access_history_independent. Qed.
 Print Assumptions C12_access_history_independent_tcp.
 
-(* ---- the gates come before any upstream action ---- *)
+(* ---- the gates come before any upstream action (unfoldings of serve_http / serve_tcp:
+        mechanism lemmas; the property's statement composed from them is the section
+        "the property, composed" below) ---- *)
 Theorem C12_gate_before_upstream_http :
   forall parse_ip split_host (creds : Type) t (schemes : scheme_table creds) remote xff c,
   In EUpstream (serve_http parse_ip split_host creds t schemes remote xff c) ->
@@ -309,10 +313,12 @@ Proof. exact multi_value_xff_now_denied. Qed.
 Print Assumptions C12_multi_value_xff_now_denied.
 
 (* the code as it is: a non-denial means every address of the request is admitted, for any
-   number of header lines and with zones; the only hypothesis left is that the request's
-   strings mean, as addresses, what net.ParseIP reads once the zone is cut *)
+   number of header lines and with zones; the only hypothesis left (one direction): whatever a
+   string of the request means as an address, net.ParseIP reads the same address (up to
+   v4-mapping) once the zone is cut *)
 Theorem C12_http_gate_spec_on_domain : forall parse_ip split_host addr_of r remote host xff,
-  (forall s, In s (request_strings host xff) -> addr_of s = parse_ip (strip_zone s)) ->
+  (forall s a, In s (request_strings host xff) -> addr_of s = Some a ->
+               exists ip, parse_ip (strip_zone s) = Some ip /\ canon ip = canon a) ->
   parse_ip [] = None ->
   split_host remote = Some host ->
   access_denied_http parse_ip split_host r remote xff = false ->
@@ -339,6 +345,125 @@ Theorem C12_reference_is_intended : forall parse_ip parse_cidr allow_opt deny_op
   ref_admits rr (canon ip) = intended_admits parse_ip parse_cidr allow_opt deny_opt ip.
 Proof. exact ref_admits_is_intended. Qed.
 Print Assumptions C12_reference_is_intended.
+
+(* ================= the property, composed =================
+   For every rule text (well-formed or not), RemoteAddr, X-Forwarded-For header set, scheme name,
+   scheme table, credentials, on a forwarding or a redirect route whose rule map is what
+   ProcessAccessRules leaves; "admitted" is the independent [intended_admits] reading of the
+   rule text (parsable items only; membership proved equal to the bit-level CIDR spec). *)
+Theorem C12_http_forwarded_only_if :
+  forall parse_ip parse_cidr split_host (creds : Type) allow_opt deny_opt auth redirect
+         (schemes : scheme_table creds) remote host xff c,
+  split_host remote = Some host -> parse_ip [] = None ->
+  (In EUpstream (serve_http parse_ip split_host creds (Some (route_target parse_ip parse_cidr allow_opt deny_opt auth redirect)) schemes remote xff c)
+   \/ exists code, In (ERedirect code) (serve_http parse_ip split_host creds (Some (route_target parse_ip parse_cidr allow_opt deny_opt auth redirect)) schemes remote xff c)) ->
+  request_admitted parse_ip parse_cidr allow_opt deny_opt host xff /\ authorized auth schemes c = true.
+Proof. exact http_forwarded_only_if. Qed.
+Print Assumptions C12_http_forwarded_only_if.
+
+Theorem C12_http_rejected_gets_403 :
+  forall parse_ip parse_cidr split_host (creds : Type) allow_opt deny_opt auth redirect
+         (schemes : scheme_table creds) remote host xff c s ip,
+  split_host remote = Some host -> parse_ip [] = None ->
+  In s (request_strings host xff) -> parse_ip (strip_zone s) = Some ip ->
+  intended_admits parse_ip parse_cidr allow_opt deny_opt ip = false ->
+  serve_http parse_ip split_host creds (Some (route_target parse_ip parse_cidr allow_opt deny_opt auth redirect)) schemes remote xff c
+  = [ERespond 403].
+Proof. exact http_rejected_gets_403. Qed.
+Print Assumptions C12_http_rejected_gets_403.
+
+Theorem C12_http_unauthorised_gets_401 :
+  forall parse_ip parse_cidr split_host (creds : Type) allow_opt deny_opt auth redirect
+         (schemes : scheme_table creds) remote xff c,
+  access_denied_http parse_ip split_host (target_rules parse_ip parse_cidr allow_opt deny_opt) remote xff = false ->
+  authorized auth schemes c = false ->
+  serve_http parse_ip split_host creds (Some (route_target parse_ip parse_cidr allow_opt deny_opt auth redirect)) schemes remote xff c
+  = [ERespond 401].
+Proof. exact http_unauthorised_gets_401. Qed.
+Print Assumptions C12_http_unauthorised_gets_401.
+
+(* on a well-formed rule text the premise of the 401 theorem is "every address is admitted by
+   the intended reading" *)
+Theorem C12_http_admitted_not_denied :
+  forall parse_ip parse_cidr split_host allow_opt deny_opt remote host xff,
+  rule_well_formed parse_ip parse_cidr allow_opt deny_opt = true ->
+  split_host remote = Some host -> parse_ip [] = None ->
+  request_admitted parse_ip parse_cidr allow_opt deny_opt host xff ->
+  access_denied_http parse_ip split_host (target_rules parse_ip parse_cidr allow_opt deny_opt) remote xff = false.
+Proof. exact http_admitted_not_denied. Qed.
+Print Assumptions C12_http_admitted_not_denied.
+
+(* completeness of the walk: any address of the request that the rule map rejects denies *)
+Theorem C12_rejected_address_denies : forall parse_ip split_host r remote host xff s ip,
+  split_host remote = Some host -> parse_ip [] = None ->
+  In s (request_strings host xff) -> parse_ip (strip_zone s) = Some ip ->
+  deny_by_ip r (Some ip) = true ->
+  access_denied_http parse_ip split_host r remote xff = true.
+Proof. exact rejected_address_denies. Qed.
+Print Assumptions C12_rejected_address_denies.
+
+Theorem C12_denied_tcp_closes : forall t p,
+  access_denied_tcp (t_rules t) p = true -> serve_tcp (Some t) p = [EClose].
+Proof. exact denied_tcp_closes. Qed.
+Print Assumptions C12_denied_tcp_closes.
+
+Theorem C12_tcp_dialled_only_if : forall parse_ip parse_cidr allow_opt deny_opt ip,
+  In EUpstream (serve_tcp (Some (route_target parse_ip parse_cidr allow_opt deny_opt [] 0)) (TCPAddr (Some ip))) ->
+  intended_admits parse_ip parse_cidr allow_opt deny_opt ip = true.
+Proof. exact tcp_dialled_only_if. Qed.
+Print Assumptions C12_tcp_dialled_only_if.
+
+Theorem C12_tcp_rejected_closes : forall parse_ip parse_cidr allow_opt deny_opt ip,
+  intended_admits parse_ip parse_cidr allow_opt deny_opt ip = false ->
+  serve_tcp (Some (route_target parse_ip parse_cidr allow_opt deny_opt [] 0)) (TCPAddr (Some ip)) = [EClose].
+Proof. exact tcp_rejected_closes. Qed.
+Print Assumptions C12_tcp_rejected_closes.
+
+(* a reachable rule map never holds both keys (closes the [r_allow r = None] hypothesis of the
+   deny-list theorems) *)
+Theorem C12_reachable_rules_one_key : forall parse_ip parse_cidr allow_opt deny_opt,
+  r_allow (target_rules parse_ip parse_cidr allow_opt deny_opt) = None \/
+  r_deny (target_rules parse_ip parse_cidr allow_opt deny_opt) = None.
+Proof. exact reachable_rules_one_key. Qed.
+Print Assumptions C12_reachable_rules_one_key.
+
+Theorem C12_property_nonvacuous :
+  serve_http ex_parse_ip ex_split_host unit (Some (route_target ex_parse_ip ex_parse_cidr [] (bs "ip:6.6.6.6") [] 0))
+             (fun _ => None) (bs "1.1.1.1:1") [bs "8.8.8.8"; bs "1.1.1.1"] tt = [EUpstream] /\
+  serve_http ex_parse_ip ex_split_host unit (Some (route_target ex_parse_ip ex_parse_cidr [] (bs "ip:6.6.6.6") [] 0))
+             (fun _ => None) (bs "1.1.1.1:1") [bs "8.8.8.8"; bs "6.6.6.6"] tt = [ERespond 403] /\
+  intended_admits ex_parse_ip ex_parse_cidr [] (bs "ip:6.6.6.6") (IP16 (mapped 101058054)) = false /\
+  serve_http ex_parse_ip ex_split_host unit (Some (route_target ex_parse_ip ex_parse_cidr [] (bs "ip:6.6.6.6") (bs "nosuch") 0))
+             (fun _ => None) (bs "1.1.1.1:1") [] tt = [ERespond 401] /\
+  serve_http ex_parse_ip ex_split_host unit (Some (route_target ex_parse_ip ex_parse_cidr (bs "ip:10.0.0.0/33") [] [] 0))
+             (fun _ => None) (bs "1.1.1.1:1") [] tt = [ERespond 403] /\
+  serve_tcp (Some (route_target ex_parse_ip ex_parse_cidr (bs "ip:10.0.0.0/8") [] [] 0)) (TCPAddr (Some ip_8888)) = [EClose] /\
+  serve_tcp (Some (route_target ex_parse_ip ex_parse_cidr (bs "ip:10.0.0.0/8") [] [] 0)) (TCPAddr (Some (IP4 168430090))) = [EUpstream].
+Proof. exact property_nonvacuous. Qed.
+Print Assumptions C12_property_nonvacuous.
+
+(* ================= gRPC: F-C12-4 (OPEN) =================
+   proxy/grpc_handler.go applies no gate: the allow / deny / auth options of a proto=grpc(s)
+   route have no effect.  Region = gRPC route with any access or auth option. *)
+Theorem C12_grpc_not_gated_refuted :
+  exists (t : target) (ip : ipaddr),
+    deny_by_ip (t_rules t) (Some ip) = true /\ In EUpstream (serve_grpc (Some t)).
+Proof. exact grpc_not_gated_refuted. Qed.
+Print Assumptions C12_grpc_not_gated_refuted.
+
+Theorem C12_grpc_unauthorised_refuted :
+  exists (t : target) (schemes : scheme_table unit),
+    authorized (t_auth t) schemes tt = false /\ In EUpstream (serve_grpc (Some t)).
+Proof. exact grpc_unauthorised_refuted. Qed.
+Print Assumptions C12_grpc_unauthorised_refuted.
+
+(* outside the region (no access and no auth option) a forwarded call is admitted and authorised *)
+Theorem C12_grpc_gate_on_domain : forall (creds : Type) t (schemes : scheme_table creds) c ip,
+  rules_empty (t_rules t) = true -> t_auth t = [] ->
+  In EUpstream (serve_grpc (Some t)) ->
+  deny_by_ip (t_rules t) ip = false /\ authorized (t_auth t) schemes c = true.
+Proof. exact grpc_gate_on_domain. Qed.
+Print Assumptions C12_grpc_gate_on_domain.
 
 (* ---- non-vacuity ---- *)
 Theorem C12_nonvacuous_contains :
